@@ -137,9 +137,8 @@ impl File {
     #[verifier::external_body]
     pub fn seek(&mut self, to: SeekFrom) -> (r: Result<u64>)
         ensures
-            r.is_err() ==> final(self)@ == old(self)@,
             r.is_ok() && to is Start ==> final(self)@ == (FileV { pos: to->Start_0 as nat, ..old(self)@ }),
-            r.is_ok() ==> final(self)@.path == old(self)@.path && final(self)@.snap == old(self)@.snap
+            final(self)@.path == old(self)@.path && final(self)@.snap == old(self)@.snap
                 && final(self)@.append == old(self)@.append && final(self)@.writable == old(self)@.writable,
     { unimplemented!() }
 
@@ -186,7 +185,6 @@ impl RwLockReadGuard<File> {
     #[verifier::external_body]
     pub fn seek(&mut self, to: SeekFrom) -> (r: Result<u64>)
         ensures
-            r.is_err() ==> final(self).file@ == old(self).file@,
             r.is_ok() && to is Start ==> final(self).file@ == (FileV { pos: to->Start_0 as nat, ..old(self).file@ }),
             final(self).file@.path == old(self).file@.path && final(self).file@.snap == old(self).file@.snap,
     { unimplemented!() }
